@@ -334,6 +334,7 @@ func c05Judge(r *R, peer *rawPeer, b *stubBackend, defs []*c05cmd, useTLS, insec
 	ci := 0
 	closedSeen := false
 	logoutStep, prevReplyEnd := 0, 0
+	prevReplyIdx := -1
 	for i, o := range peer.outcomes {
 		d := defs[i]
 		if !o.Sent {
@@ -450,14 +451,23 @@ func c05Judge(r *R, peer *rawPeer, b *stubBackend, defs []*c05cmd, useTLS, insec
 		}
 		// capability data inside replies must match the state after the command
 		if d.name == "CAPABILITY" {
-			for k := o.FromIdx; k < o.ReplyIdx && k < len(peer.resps); k++ {
-				checkCaps(&peer.resps[k], st, "CAPABILITY in state "+msNames[st])
+			// its untagged data sits between the previous command's tagged reply and its own (with pipelining
+			// the responses not yet parsed when it was sent include replies to earlier commands: not its data)
+			from := o.FromIdx
+			if prevReplyIdx+1 > from {
+				from = prevReplyIdx + 1
+			}
+			for k := from; k < o.ReplyIdx && k < len(peer.resps); k++ {
+				if peer.resps[k].Tag == "*" {
+					checkCaps(&peer.resps[k], st, "CAPABILITY in state "+msNames[st])
+				}
 			}
 		}
 		if (d.name == "LOGIN" || d.name == "AUTHENTICATE") && res == "OK" {
 			checkCaps(o.Reply, post, d.name+" reply")
 		}
 		st = post
+		prevReplyIdx = o.ReplyIdx
 	}
 	// once the connection is in the logout state (LOGOUT answered, or an unknown command before
 	// authentication answered) nothing but Close may reach the backend, whatever was pipelined
